@@ -297,15 +297,16 @@ var checks = []Check{
 	{
 		Property: "C13",
 		Harnesses: []Harness{
-			{Dir: "mongokit", Func: "H_C13_find", Quick: P{"maxdocs": 2, "tags": TInt32 | TString}, Thorough: P{"maxdocs": 2, "tags": TNull | TInt32 | TString}},
-			{Dir: "mongokit", Func: "H_C13_write", Quick: P{"maxdocs": 2, "tags": TInt32 | TString}, Thorough: P{"maxdocs": 2, "tags": TInt32 | TString}},
-			{Dir: "mongokit", Func: "H_C13_distinct", Quick: P{"maxdocs": 2, "useb": 0, "symid": 1}, Thorough: P{"maxdocs": 2, "useb": 1, "symid": 1}},
+			{Dir: "mongokit", Func: "H_C13_find", Quick: P{"unstablesort": 1, "maxdocs": 2, "tags": TInt32 | TString}, Thorough: P{"unstablesort": 1, "maxdocs": 2, "tags": TNull | TInt32 | TString}},
+			{Dir: "mongokit", Func: "H_C13_write", Quick: P{"unstablesort": 1, "maxdocs": 2, "tags": TInt32 | TString}, Thorough: P{"unstablesort": 1, "maxdocs": 2, "tags": TInt32 | TString}},
+			{Dir: "mongokit", Func: "H_C13_distinct", Quick: P{"unstablesort": 1, "maxdocs": 2, "useb": 0, "symid": 1}, Thorough: P{"unstablesort": 1, "maxdocs": 2, "useb": 1, "symid": 1}},
 		},
 		Assumptions: commonAssumptions,
 		Bounds: []string{"collection of <= maxdocs documents {_id: i, a?: X, b?: Y} built through the real Insert; X: null/int32/double/string or an array (<=2) of null/int32/string; Y: int32/string",
 			"sort specification: none, one key or two keys over {a,b} in either order with symbolic directions; filter: none or {b: {$gte: c}}; skip and limit: every non-negative int (64 bit)",
 			"oracle: stable insertion sort with a comparator written from the manual (arrays rank by min ascending / max descending), window in unbounded arithmetic; compares document identities",
 			"the value domain of a,b per run is the harness parameter tags (quick and thorough: int32/string, thorough find adds null); the full domain listed above is what the harness supports, larger tag sets did not finish within the time budget of a registered tier",
+			"sort.Slice is modelled by its contract (unstablesort=1): after sorting, one adjacent pair of equal elements may be swapped; a counterexample that needs the swap is reported as found in the contract model because the current Go runtime happens to sort short slices stably (sort.SliceStable is modelled as stable)",
 			"outside: Decimal128; negative limit; more than 2 documents in find/write (3 in distinct)"},
 	},
 	{
